@@ -375,6 +375,13 @@ def run_check(hname, tier, jobs=None, budget_s=None):
                 agg["functions"].update(tuple(x) for x in out["functions"])
                 d = per_sk.setdefault(out["sk"], {"paths": 0})
                 d["paths"] += out["stats"]["paths"]
+                if total.paths >= 300 and total.discharged + total.refuted == 0:
+                    print(f"HARNESS-ERROR property={pid}: {total.paths} paths and nothing decided, e.g. "
+                          f"{(agg['raised'] or agg['unsupported'] or [{}])[0].get('error')}", file=sys.stderr)
+                    for f2 in futs:
+                        f2.cancel()
+                    pool.shutdown(wait=False, cancel_futures=True)
+                    return _finish_error(pid, tier, seed, t0, "nothing decided in the first 300 paths")
                 rest = out["leftover"]
                 if rest:
                     if time.time() < deadline:
